@@ -276,6 +276,22 @@ WHAT.update({
  "W5C20_B": ("C20", "advance_time recomputes the next tick as a multiple of dt", "a starting time that is not a multiple of dt"),
 })
 
+# wave 6: one change per author, twelve properties, ten earlier changes per property listed as taken
+WHAT.update({
+ "W6C06_A": ("C06", "ArrayDelayQueue.add_reaction overwrites the slot count instead of adding to it", "two firings of one delayed reaction that round to the same queue slot"),
+ "W6C07_A": ("C07", "the deterministic simulator restores only the first num_species parameters before re-applying rules to the rows", "more parameters than species, a rule assigning a late-indexed parameter from t, a species rule listed before it that reads it"),
+ "W6C09_A": ("C09", "VolumeSSASimulator sets rule_step in its zero-propensity branch (dt rules run twice per step)", "stochastic + volume, total propensity exactly 0, a dt-frequency or ODE rule"),
+ "W6C10_A": ("C10", "DelaySSASimulator queues a firing whose drawn delay is exactly 0 (delivered at the next grid point)", "a delayed part with a fixed delay 0 or gaussian(0, 0)"),
+ "W6C11_A": ("C11", "PositiveHillPropensity.get_volume_propensity rewritten with V*K^n instead of V^n*K^n", "hillpositive with n != 1 in a volume-aware simulation with V != 1"),
+ "W6C12_A": ("C12", "generate_sbml_model writes the delay annotation only when a delayed species list is non-empty", "a delayed reaction whose delayed reactants and products are both empty"),
+ "W6C13_A": ("C13", "colliding local parameters are renamed by text substitution in the rate string", "a colliding local id that is a substring of another identifier in the same law"),
+ "W6C14_A": ("C14", "the proportional Hill export appends *d only when d is a reactant or a listed modifier", "proportionalhillpositive whose d is a product but not a reactant"),
+ "W6C16_A": ("C16", "bounded priors test their support as lower <= value < upper", "a value exactly on the upper bound of a uniform / log-uniform / beta prior"),
+ "W6C18_A": ("C18", "_evaluate_model skips set_params when the (aliased, mutated in place) dict compares equal to the last one", "a parameter entering the first species' rate, any scheme but backward"),
+ "W6C19_A": ("C19", "apply_division_rules returns the last division rule that fires instead of the first", "two division rules with different splitters firing at the same check"),
+ "W6C20_A": ("C20", "binomial_partition leaves the reaction loop at the first empty entry of a slot", "two or more delayed reactions, a slot where a lower-indexed one is empty and a higher-indexed one pending"),
+})
+
 
 def parse_log(path):
     confirm, runs = {}, {}
